@@ -24,6 +24,7 @@ import LinVerif.Lemmas.C02Read
 import LinVerif.Lemmas.C02TokStep
 import LinVerif.Lemmas.C02Lru
 import LinVerif.Lemmas.C02Cur
+import LinVerif.Lemmas.C02Rollup
 import LinVerif.Generated.C02
 
 namespace LinVerif.Props.C02
@@ -32,12 +33,12 @@ open LinVerif.VersionSet LinVerif.TableCache LinVerif.Lemmas.C02
 /-! ### tie to /repo's current source (regenerated facts) -/
 
 /-- the model variant the current source selects -/
-def codeCfg (threshold : Nat) (rollupOn : Bool) : Cfg :=
+def codeCfg (threshold : Nat) (targets : List Nat) : Cfg :=
   { recheck := Generated.C02.removeVersionRechecksRef, cloneLocked := Generated.C02.commitCloneUnderLock,
     allocLocked := Generated.C02.allocUnderCommitLock, findErrReleases := Generated.C02.findErrReleases,
     pendFirst := Generated.C02.pendBeforeCreate, closeCAS := Generated.C02.closeIsCAS,
     getReaderAtomic := Generated.C02.getReaderOneSection, listFirst := Generated.C02.listBeforeLive,
-    threshold := threshold, rollupOn := rollupOn }
+    threshold := threshold, targets := targets, rollDelPerInterval := Generated.C02.rollupDelPerInterval }
 
 /-- the current source re-checks the refcount in `removeVersion` (fix b108b0f) -/
 theorem source_rechecks : Generated.C02.removeVersionRechecksRef = true := rfl
@@ -69,6 +70,10 @@ theorem findFiles_complete (v : VData) (k : Nat) (m : FileMeta) :
 theorem tie_findReaders : Generated.C02.findReadersCalls = Code.findReaders := rfl
 theorem tie_findReadersErrPath : Generated.C02.findReadersErrCalls = Code.findReadersErrPath := rfl
 theorem tie_rollupJob : Generated.C02.rollupCalls = Code.rollupJob := rfl
+/-- the current source creates the DeleteRollupFile records inside the loop over the target intervals,
+after that target's `doRollupWork` succeeded, for that target's files and with that target's interval -/
+theorem source_rollup_per_interval : Generated.C02.rollupDelPerInterval = true := rfl
+theorem tie_rollupDelShape : Generated.C02.rollupDelShape = Code.rollupDelShape := rfl
 theorem tie_commitOutsideLock : Generated.C02.commitOutsideLock = [] := rfl
 theorem tie_commitInsideLock : Generated.C02.commitInsideLock =
     ["vs.persistEditLogs", "familyVersion.GetSnapshot", "snapshot.GetCurrent().Clone", "editLog.apply",
@@ -115,7 +120,7 @@ theorem safe_invariant {cfg : Cfg} {v0 f0 : Nat} {s : St} (hr : cfg.recheck = tr
     (h : Reachable cfg v0 f0 s) : Safe s := safe_reachable hr hcl hal hfe hpf hcc hga hlf h
 
 /-- if the current source re-checks, every schedule of the code's own model variant is safe -/
-theorem code_safe {t : Nat} {ro : Bool} {v0 f0 : Nat} {s : St}
+theorem code_safe {t : Nat} {ro : List Nat} {v0 f0 : Nat} {s : St}
     (hfact : Generated.C02.removeVersionRechecksRef = true) (hfact2 : Generated.C02.commitCloneUnderLock = true)
     (hfact3 : Generated.C02.allocUnderCommitLock = true) (hfact4 : Generated.C02.findErrReleases = false)
     (hfact5 : Generated.C02.pendBeforeCreate = true) (hfact6 : Generated.C02.closeIsCAS = true)
@@ -125,7 +130,7 @@ theorem code_safe {t : Nat} {ro : Bool} {v0 f0 : Nat} {s : St}
 
 /-- UNCONDITIONAL for the current source: every schedule of the model variant selected by the
 regenerated facts is safe (any compaction threshold, rollup on or off, any first ids). -/
-theorem safe_current_source {t : Nat} {ro : Bool} {v0 f0 : Nat} {s : St}
+theorem safe_current_source {t : Nat} {ro : List Nat} {v0 f0 : Nat} {s : St}
     (h : Reachable (codeCfg t ro) v0 f0 s) : Safe s :=
   code_safe source_rechecks source_clone_locked source_alloc_locked source_find_err_keeps source_pend_first
     source_close_cas source_getReader_atomic source_list_first h
@@ -159,10 +164,11 @@ theorem no_needed_file_deleted {cfg : Cfg} {v0 f0 : Nat} {s : St} (hr : cfg.rech
     (h : Reachable cfg v0 f0 s) :
     (∀ i, i < s.nSnap → (s.snap i).st = .opened → ∀ f ∈ (s.ver (s.snap i).ver).nos, f ∈ s.disk) ∧
     (∀ j, j < s.nJob → outOnDisk (s.job j).pc = true → ∀ f ∈ outNo (s.job j), f ∈ s.disk ∧ f ∈ s.pending) ∧
-    (∀ f ∈ (s.ver s.cur).rollup, f ∈ s.disk) ∧
+    (∀ p ∈ (s.ver s.cur).rollup, p.1 ∈ s.disk) ∧
     (∀ i, i < s.nSnap → (s.snap i).st = .opened → ∀ f ∈ (s.snap i).held, s.cref f ≠ none) := by
   have hs := safe_reachable hr hcl hal hfe hpf hcc hga hlf h
-  refine ⟨fun i hi ho => hs.files_on_disk _ (hs.open_active i hi ho), ?_, hs.rollup_on_disk, hs.held_mapped⟩
+  refine ⟨fun i hi ho => hs.files_on_disk _ (hs.open_active i hi ho), ?_,
+    fun p hp => hs.rollup_on_disk p.1 (List.mem_map.mpr ⟨p, hp, rfl⟩), hs.held_mapped⟩
   intro j hj hp f hf
   have hb := hs.jobs j hj
   have hp' : outPending (s.job j).pc = true := by
@@ -177,10 +183,10 @@ theorem delete_only_unneeded {cfg : Cfg} {v0 f0 : Nat} {s : St} (hr : cfg.rechec
     (f : Nat) (rest : List Nat) (htodo : (s.job j).todoDel = f :: rest) :
     jstep cfg s j = some (doRemove s j f rest) ∧
     (∀ i, i < s.nSnap → (s.snap i).st = .opened → f ∉ (s.ver (s.snap i).ver).nos) ∧
-    f ∉ s.pending ∧ f ∉ (s.ver s.cur).rollup := by
+    f ∉ s.pending ∧ ∀ iv, (f, iv) ∉ (s.ver s.cur).rollup := by
   have hs := safe_reachable hr hcl hal hfe hpf hcc hga hlf h
   have hd := (hs.jobs j hj).deleting (by rw [hpc]; rfl) f (by simp [htodo])
-  refine ⟨by simp [jstep, hj, hpc, htodo], ?_, hd.1.2.1, hd.2⟩
+  refine ⟨by simp [jstep, hj, hpc, htodo], ?_, hd.1.2.1, fun iv hm => hd.2 (List.mem_map.mpr ⟨(f, iv), hm, rfl⟩)⟩
   intro i hi ho
   exact hd.1.2.2 _ (hs.open_active i hi ho)
 
@@ -396,20 +402,20 @@ theorem harness_merger_ok : MergerOk mergeContent := mergeContent_ok
 
 /-- UNCONDITIONAL for the current source with the harness' merger (the configuration the
 correspondence runs): the current version shows exactly the tokens of the completed flush commits -/
-theorem current_source_harness_tokens {t : Nat} {ro : Bool} {v0 f0 : Nat} {s : St}
+theorem current_source_harness_tokens {t : Nat} {ro : List Nat} {v0 f0 : Nat} {s : St}
     (h : Reachable (codeCfg t ro) v0 f0 s) (k : Nat) :
     (vTokens (s.ver s.cur).files s.content k).Perm (s.flushed.flatMap (fun f => tokensAt (s.content f) k)) :=
   current_shows_flushed_tokens (cfg := codeCfg t ro) mergeContent_ok source_rechecks source_clone_locked
     source_alloc_locked source_find_err_keeps source_pend_first source_close_cas source_getReader_atomic source_list_first h k
 
 /-- the model variant of the current source with an arbitrary merger -/
-def codeCfgWith (merge : List Content → Content) (threshold : Nat) (rollupOn : Bool) : Cfg :=
-  { codeCfg threshold rollupOn with merge := merge }
+def codeCfgWith (merge : List Content → Content) (threshold : Nat) (targets : List Nat) : Cfg :=
+  { codeCfg threshold targets with merge := merge }
 
 /-- UNCONDITIONAL for the current source, any contract-abiding merger: what the current version
 shows for a key is exactly what the completed flush commits wrote -/
 theorem current_source_shows_flushed_tokens {merge : List Content → Content} (hm : MergerOk merge)
-    {t : Nat} {ro : Bool} {v0 f0 : Nat} {s : St} (h : Reachable (codeCfgWith merge t ro) v0 f0 s) (k : Nat) :
+    {t : Nat} {ro : List Nat} {v0 f0 : Nat} {s : St} (h : Reachable (codeCfgWith merge t ro) v0 f0 s) (k : Nat) :
     (vTokens (s.ver s.cur).files s.content k).Perm (s.flushed.flatMap (fun f => tokensAt (s.content f) k)) :=
   current_shows_flushed_tokens (cfg := codeCfgWith merge t ro) hm source_rechecks source_clone_locked source_alloc_locked source_find_err_keeps
     source_pend_first source_close_cas source_getReader_atomic source_list_first h k
@@ -440,37 +446,89 @@ theorem allocated_number_unlisted {cfg : Cfg} {v0 f0 : Nat} {s : St} (hm : Merge
     ∀ f ∈ outNo (s.job j), ∀ v, f ∉ (s.ver v).nos :=
   ((tok_reachable hm hr hcl hal hfe hpf hcc hga hlf h).jobs j hj).hidden hp
 
-/-- A pending rollup mark (file `f` in the current version's rollup set — the record that a rollup
-of `f` is still to be done, and what keeps `f` alive once it is compacted away) survives every step
-except the version swap of a rollup-done commit that names `f`: no flush, compaction, cleanup,
-deleteObsoleteFiles, and no rollup job whose targets were skipped or failed (that job commits
-nothing: it is the model's `delObs` job) removes it. Together with `no_needed_file_deleted`
-(every marked file is in the directory) this is "a file a pending rollup still needs is never deleted". -/
+/-- A pending rollup mark — the pair (file `f`, target interval `iv`) in the current version's rollup
+set: the record that the rollup of `f` into the `iv` target is still to be done, and what keeps `f`
+alive once it is compacted away — survives every step except the version swap of a rollup commit
+whose edit log names exactly that pair: no flush, compaction, cleanup, deleteObsoleteFiles removes it.
+Such a commit is either the explicit rollup-done commit (`rollupDone`: "the target merged these") or
+the commit of a rollup job (`family.rollup`), and then (DeleteRollupFile records created per target,
+`rollDelPerInterval`) `iv` is one of the targets that SUCCEEDED in that job — whatever subset of the
+job's targets was skipped or failed (the job's outcome set is arbitrary). -/
 theorem rollup_mark_removed_only_by_rollup_done {cfg : Cfg} {v0 f0 : Nat} {s s' : St} {a : Act}
     (hr : cfg.recheck = true) (hcl : cfg.cloneLocked = true) (hal : cfg.allocLocked = true) (hfe : cfg.findErrReleases = false) (hpf : cfg.pendFirst = true)
     (hcc : cfg.closeCAS = true) (hga : cfg.getReaderAtomic = true) (hlf : cfg.listFirst = true)
-    (h : Reachable cfg v0 f0 s) (hst : step cfg s a = some s') (f : Nat) (hf : f ∈ (s.ver s.cur).rollup) :
-    f ∈ (s'.ver s'.cur).rollup ∨
-    ∃ j, a = .jstep j ∧ j < s.nJob ∧ (s.job j).kind = .rollupDone ∧ (s.job j).pc = .cSnapped ∧
-      f ∈ (s.job j).edit.rollDel := by
+    (hpi : cfg.rollDelPerInterval = true)
+    (h : Reachable cfg v0 f0 s) (hst : step cfg s a = some s') (f iv : Nat) (hf : (f, iv) ∈ (s.ver s.cur).rollup) :
+    (f, iv) ∈ (s'.ver s'.cur).rollup ∨
+    ∃ j, a = .jstep j ∧ j < s.nJob ∧ (s.job j).pc = .cSnapped ∧ (f, iv) ∈ (s.job j).edit.rollDel ∧
+      ((s.job j).kind = .rollupDone ∨ ((s.job j).kind = .rollupJob ∧ iv ∈ okTargets (s.job j))) := by
   have hs := safe_reachable hr hcl hal hfe hpf hcc hga hlf h
+  have hri := rollInv_reachable hpf hpi h
   have hfr := frame_step hpf (fun k hk hp => (hs.jobs k hk).nfread hp) hst
   rcases cur_step hpf hst with hc | ⟨j, rfl, hj, hpc, rfl⟩
   · left; rw [hc, hfr.ver_eq _ hs.ver_bound.1]; exact hf
   · have hb := hs.jobs j hj
     have hbuilt := (hb.built hpc).2
     have hcur : (jSwap s j).ver (jSwap s j).cur = s.ver (s.job j).newVer := rfl
-    by_cases hdel : f ∈ (s.job j).edit.rollDel
+    by_cases hdel : (f, iv) ∈ (s.job j).edit.rollDel
     · right
-      refine ⟨j, rfl, hj, ?_, hpc, hdel⟩
-      apply Classical.byContradiction
-      intro hk
-      have := hb.rolldel (by rw [hpc]; rfl) hk
-      rw [this] at hdel; cases hdel
+      refine ⟨j, rfl, hj, hpc, hdel, ?_⟩
+      by_cases hk1 : (s.job j).kind = .rollupDone
+      · exact Or.inl hk1
+      · by_cases hk2 : (s.job j).kind = .rollupJob
+        · exact Or.inr ⟨hk2, hri j hk2 (f, iv) hdel⟩
+        · have := hb.rolldel (by rw [hpc]; rfl) hk1 hk2
+          rw [this] at hdel; cases hdel
     · left
       rw [hcur, hbuilt]
       simp only [applyEdit, List.mem_append, List.mem_filter]
       left; exact ⟨hf, by simpa using hdel⟩
+
+/-- Over all schedules and all subsets of succeeding / failing rollup targets: the edit log of a
+rollup job names only (file, interval) pairs whose target interval succeeded in that job. -/
+theorem rollup_job_names_only_succeeded_targets {cfg : Cfg} {v0 f0 : Nat} {s : St} (hpf : cfg.pendFirst = true)
+    (hpi : cfg.rollDelPerInterval = true) (h : Reachable cfg v0 f0 s) (j : Nat) (hk : (s.job j).kind = .rollupJob) :
+    ∀ p ∈ (s.job j).edit.rollDel, p.2 ∈ okTargets (s.job j) :=
+  rollInv_reachable hpf hpi h j hk
+
+/-- the step that builds the rollup job's edit log: exactly the current marks of the succeeded targets -/
+theorem rollup_job_edit_is_marks_of_succeeded_targets (cfg : Cfg) (hpi : cfg.rollDelPerInterval = true) (s : St) (j : Nat)
+    (hj : j < s.nJob) (hpc : (s.job j).pc = .start) (hk : (s.job j).kind = .rollupJob) :
+    jstep cfg s j = some (jRollupStart cfg s j) ∧
+    ∀ p, p ∈ ((jRollupStart cfg s j).job j).edit.rollDel ↔ (p ∈ (s.ver s.cur).rollup ∧ p.2 ∈ okTargets (s.job j)) := by
+  refine ⟨by simp [jstep, hj, hpc, hk], fun p => ?_⟩
+  simp only [jRollupStart, St.setJob, upd, if_true, hpi, okTargets]
+  exact mem_rollupDels_perInterval _ _ p
+
+/-- A rollup job whose target `iv` was skipped or failed leaves every `iv` mark in place when its
+commit is installed (whatever its other targets did). -/
+theorem failed_target_keeps_its_marks {cfg : Cfg} {v0 f0 : Nat} {s s' : St} {j : Nat}
+    (hr : cfg.recheck = true) (hcl : cfg.cloneLocked = true) (hal : cfg.allocLocked = true) (hfe : cfg.findErrReleases = false) (hpf : cfg.pendFirst = true)
+    (hcc : cfg.closeCAS = true) (hga : cfg.getReaderAtomic = true) (hlf : cfg.listFirst = true)
+    (hpi : cfg.rollDelPerInterval = true)
+    (h : Reachable cfg v0 f0 s) (hst : step cfg s (.jstep j) = some s') (hk : (s.job j).kind = .rollupJob)
+    (f iv : Nat) (hiv : iv ∉ okTargets (s.job j)) (hf : (f, iv) ∈ (s.ver s.cur).rollup) :
+    (f, iv) ∈ (s'.ver s'.cur).rollup := by
+  rcases rollup_mark_removed_only_by_rollup_done hr hcl hal hfe hpf hcc hga hlf hpi h hst f iv hf with h' | ⟨k, hk', _, _, _, hkind⟩
+  · exact h'
+  · cases hk'
+    rcases hkind with hd | ⟨_, hok⟩
+    · rw [hk] at hd; cases hd
+    · exact absurd hok hiv
+
+/-- In every reachable state a table that carries a pending rollup mark for ANY target interval is in
+the directory, and no deleteObsoleteFiles — the stand-alone one, the one deferred by a level-0
+compaction, the one deferred by the rollup job itself — has it in its delete list (it is in the live
+set the cleanup computed: `GetLiveRollupFiles` = the files with at least one mark). -/
+theorem pending_rollup_file_kept_for_any_interval {cfg : Cfg} {v0 f0 : Nat} {s : St}
+    (hr : cfg.recheck = true) (hcl : cfg.cloneLocked = true) (hal : cfg.allocLocked = true) (hfe : cfg.findErrReleases = false) (hpf : cfg.pendFirst = true)
+    (hcc : cfg.closeCAS = true) (hga : cfg.getReaderAtomic = true) (hlf : cfg.listFirst = true)
+    (h : Reachable cfg v0 f0 s) (f iv : Nat) (hf : (f, iv) ∈ (s.ver s.cur).rollup) :
+    f ∈ s.disk ∧ ∀ j, j < s.nJob → delRange (s.job j).pc = true → f ∉ (s.job j).todoDel := by
+  have hs := safe_reachable hr hcl hal hfe hpf hcc hga hlf h
+  have hfm : f ∈ (s.ver s.cur).rollupFiles := List.mem_map.mpr ⟨(f, iv), hf, rfl⟩
+  refine ⟨hs.rollup_on_disk f hfm, fun j hj hd hmem => ?_⟩
+  exact ((hs.jobs j hj).deleting hd f hmem).2 hfm
 
 /-! ### reader-cache references over histories with failing FindReaders calls
 
@@ -518,10 +576,10 @@ theorem cleanup_never_targets_concurrent_writer {cfg : Cfg} {v0 f0 : Nat} {s : S
     (h : Reachable cfg v0 f0 s) (j : Nat) (hj : j < s.nJob) (hd : delRange (s.job j).pc = true)
     (f : Nat) (hf : f ∈ (s.job j).todoDel) :
     (∀ k, k < s.nJob → outPending (s.job k).pc = true → f ∉ outNo (s.job k)) ∧
-    (∀ v ∈ s.active, f ∉ (s.ver v).nos) ∧ f ∉ (s.ver s.cur).rollup ∧ f ∉ s.pending := by
+    (∀ v ∈ s.active, f ∉ (s.ver v).nos) ∧ (∀ iv, (f, iv) ∉ (s.ver s.cur).rollup) ∧ f ∉ s.pending := by
   have hs := safe_reachable hr hcl hal hfe hpf hcc hga hlf h
   have hdd := (hs.jobs j hj).deleting hd f hf
-  refine ⟨?_, hdd.1.2.2, hdd.2, hdd.1.2.1⟩
+  refine ⟨?_, hdd.1.2.2, fun iv hm => hdd.2 (List.mem_map.mpr ⟨(f, iv), hm, rfl⟩), hdd.1.2.1⟩
   intro k hk hp hmem
   exact hdd.1.2.1 ((hs.jobs k hk).pend hp f hmem)
 
@@ -732,13 +790,38 @@ theorem lru_evict_getReader_refine (l : Lru) (disk : List Nat) (now f : Nat) :
   | none => exact absLru_get_miss h
   | some r => exact absLru_get_hit h
 
+/-- `Snapshot.Close`'s `cache.ReleaseReaders(s.readers)` on the LIST model — per reader `cache.Get`
+(found ⇒ MoveToFront) + `release()` — is the model's `snapRel` step (closed form `releaseAll`): for
+every LRU order, every reader list (with repetitions, cached or not) the resulting list abstracts to
+the step's cache, stays duplicate-free, and whatever a TTL/LRU `Cleanup` closes right afterwards is
+unreferenced in the step's cache. -/
+theorem release_readers_lru_refines (s : St) (i : Nat) (l : Lru) (hl : LruOk l) (hc : s.cref = absLru l)
+    (ttl : Int) (now : Nat) :
+    (snapRel s i).cref = absLru (lruRelease l (s.snap i).held) ∧ LruOk (lruRelease l (s.snap i).held) ∧
+    (lruClosed ttl now (lruRelease l (s.snap i).held)).all (canClean (snapRel s i).cref) = true := by
+  have h1 : (snapRel s i).cref = releaseAll (absLru l) (s.snap i).held := by simp [snapRel, hc]
+  refine ⟨by rw [h1, absLru_release], lruOk_release hl _, ?_⟩
+  rw [h1]; exact release_then_walk_closes_only_idle hl _
+
+/-- the LRU order `ReleaseReaders` leaves: each released entry moves to the front (a release counts as
+a use for the ORDER although `last` is not refreshed), the others keep their relative order -/
+theorem release_readers_lru_order (l : Lru) (f : Nat) :
+    lruOrder (lruRelease1 l f) = if f ∈ lruOrder l then f :: (lruOrder l).filter (· ≠ f) else lruOrder l :=
+  lruOrder_release1 l f
+
+/-- consequence worth knowing (not a C02 violation): a just-released idle entry sits at the FRONT, so an
+old idle entry behind a still-referenced one is not reached by the walk (it stops at the first rejection) -/
+example : lruOrder (lruRelease [⟨4, 1, 95⟩, ⟨3, 1, 10⟩, ⟨2, 2, 20⟩] [2, 3]) = [3, 2, 4] ∧
+    lruClosed 10 100 (lruRelease [⟨4, 1, 95⟩, ⟨3, 1, 10⟩, ⟨2, 2, 20⟩] [2, 3]) = [] ∧
+    absLru (lruRelease [⟨4, 1, 95⟩, ⟨3, 1, 10⟩, ⟨2, 2, 20⟩] [2, 3]) 3 = some 0 := by decide
+
 /-- non-vacuity: a three-entry LRU list whose tail is idle and expired, middle is retained -/
 example : lruClosed 10 100 [⟨4, 0, 95⟩, ⟨3, 1, 10⟩, ⟨2, 0, 20⟩] = [2] ∧
     (lruWalk 10 100 [⟨4, 0, 95⟩, ⟨3, 1, 10⟩, ⟨2, 0, 20⟩]).map (·.file) = [4, 3] := by decide
 
 /-! ### non-vacuity: a non-trivial reachable state of the safe variant -/
 
-def demoCfg : Cfg := { recheck := true, threshold := 2, rollupOn := true }
+def demoCfg : Cfg := { recheck := true, threshold := 2, targets := [5] }
 
 /-- two flushes, a reader, a compaction running to its end (incl. deleteObsoleteFiles), reader still open -/
 def demoActs : List Act :=
@@ -764,7 +847,7 @@ example : ∃ s, Reachable demoCfg 0 2 s ∧ (s.snap 2).st = .opened ∧ s.cur =
 namespace Neg
 
 /-- the model variant of the unchanged source (`removeVersion` does not re-check the refcount) -/
-def racyCfg : Cfg := { recheck := false, threshold := 2, rollupOn := false }
+def racyCfg : Cfg := { recheck := false, threshold := 2 }
 
 /-- reader A (snapshot 2) `Dec`s the current version V=2 to 0 and is descheduled; reader B
 (snapshot 3) retains V; a compaction installs V'=3 and finishes; A resumes `removeVersion(V)`;
@@ -842,7 +925,7 @@ theorem snapshot_not_stable :
 /-! #### commits outside the version-set mutex (variant `cloneLocked = false`): lost update -/
 
 /-- snapshot + Clone before `vs.mutex.Lock()` -/
-def unlockedCloneCfg : Cfg := { recheck := true, cloneLocked := false, threshold := 2, rollupOn := false }
+def unlockedCloneCfg : Cfg := { recheck := true, cloneLocked := false, threshold := 2 }
 
 /-- two flushes are ready; both clone the same base version; A installs, then B installs its
 clone of the old base: A's completed commit is gone from the current version. -/
@@ -886,7 +969,7 @@ theorem later_reader_misses_commit :
 
 /-! #### table numbers handed out without the version-set mutex (variant `allocLocked = false`) -/
 
-def unlockedAllocCfg : Cfg := { recheck := true, allocLocked := false, threshold := 2, rollupOn := false }
+def unlockedAllocCfg : Cfg := { recheck := true, allocLocked := false, threshold := 2 }
 
 /-- commit C (job 0) has read the counter and is writing the manifest; flushes A and B (jobs 1, 2)
 allocate inside that window; C stores the counter back; flush D (job 3) allocates next -/
@@ -912,7 +995,7 @@ theorem duplicate_file_number :
 
 /-! #### FindReaders' error path releasing readers it leaves recorded (variant `findErrReleases`) -/
 
-def doubleReleaseCfg : Cfg := { recheck := true, findErrReleases := true, threshold := 2, rollupOn := false }
+def doubleReleaseCfg : Cfg := { recheck := true, findErrReleases := true, threshold := 2 }
 
 /-- readers A (snapshot 1) and B (snapshot 2) both retain table 2; A's failing FindReaders releases
 it although it stays in A's reader list; A closes (second release); Cleanup closes the entry. -/
@@ -1045,6 +1128,51 @@ theorem lost_retain_unmaps_held_reader :
     obtain ⟨⟨a, b⟩, c⟩ := h
     exact ⟨s, reachable_run Reachable.init hr, a, by simpa using b, c⟩
 
+/-- variant `rollDelPerInterval = false` (the rollup-done edit log is built after the loop, for ALL
+intervals of every file that reached some target): two flushes in a store with targets [5m, 1h]
+(tables 2 and 4, each marked for both); the rollup job (job 2) in which only the 5m target succeeds
+(the 1h target store is not open) commits and clears the 1h marks too; the next level-0 compaction
+merges tables 2 and 4 away and its cleanup unlinks them — although the 1h rollup of table 2 (marked in
+version 2) was never done by anybody. -/
+def allIntervalsCfg : Cfg := { recheck := true, threshold := 2, targets := [5, 60], rollDelPerInterval := false }
+
+def skippedTargetActs (cleanupDeletes : Nat) : List Act :=
+  [.spawn .flush [(1, [10])]] ++ List.replicate 12 (.jstep 0) ++
+  [.spawn .flush [(1, [12])]] ++ List.replicate 12 (.jstep 1) ++
+  [.spawn .rollupJob [(5, [])]] ++ List.replicate 16 (.jstep 2) ++
+  [.spawn .compact []] ++ List.replicate (25 + 2 * cleanupDeletes) (.jstep 3)
+
+theorem all_intervals_variant_deletes_pending_rollup_file :
+    ∃ s, Reachable allIntervalsCfg 0 2 s ∧ (s.job 2).kind = .rollupJob ∧ okTargets (s.job 2) = [5] ∧
+      (2, 60) ∈ (s.ver 2).rollup ∧ (2, 60) ∉ (s.ver s.cur).rollup ∧ 2 ∉ s.disk := by
+  have h : (match run allIntervalsCfg (St.init 0 2) (skippedTargetActs 2) with
+      | some s => decide ((s.job 2).kind = .rollupJob) && (okTargets (s.job 2) == [5]) && (s.ver 2).rollup.contains (2, 60) &&
+          !((s.ver s.cur).rollup.contains (2, 60)) && !(s.disk.contains 2)
+      | none => false) = true := by decide
+  cases hr : run allIntervalsCfg (St.init 0 2) (skippedTargetActs 2) with
+  | none => rw [hr] at h; cases h
+  | some s =>
+    rw [hr] at h
+    simp only [Bool.and_eq_true, decide_eq_true_eq, beq_iff_eq, List.contains_eq_mem, Bool.not_eq_true', decide_eq_false_iff_not] at h
+    obtain ⟨⟨⟨⟨a, b⟩, c⟩, d⟩, e⟩ := h
+    exact ⟨s, reachable_run Reachable.init hr, a, b, c, d, e⟩
+
 end Neg
+
+/-- the same history with the source's per-interval records: the 1h marks survive the rollup job and
+tables 2 and 4 survive the compaction's cleanup (non-vacuity of the rollup theorems: a rollup job with
+one succeeded and one skipped target, followed by a compaction that merges the marked tables away) -/
+example : ∃ s, Reachable { Neg.allIntervalsCfg with rollDelPerInterval := true } 0 2 s ∧
+    (s.ver s.cur).rollup = [(2, 60), (4, 60)] ∧ 2 ∈ s.disk ∧ 4 ∈ s.disk ∧ (s.ver s.cur).nos = [7] := by
+  have h : (match run { Neg.allIntervalsCfg with rollDelPerInterval := true } (St.init 0 2) (Neg.skippedTargetActs 0) with
+      | some s => ((s.ver s.cur).rollup == [(2, 60), (4, 60)]) && s.disk.contains 2 && s.disk.contains 4 && ((s.ver s.cur).nos == [7])
+      | none => false) = true := by decide
+  cases hr : run { Neg.allIntervalsCfg with rollDelPerInterval := true } (St.init 0 2) (Neg.skippedTargetActs 0) with
+  | none => rw [hr] at h; cases h
+  | some s =>
+    rw [hr] at h
+    simp only [Bool.and_eq_true, beq_iff_eq, List.contains_eq_mem, decide_eq_true_eq] at h
+    obtain ⟨⟨⟨a, b⟩, c⟩, d⟩ := h
+    exact ⟨s, reachable_run Reachable.init hr, a, b, c, d⟩
 
 end LinVerif.Props.C02
